@@ -197,7 +197,32 @@ def finalize(ctx, explanation, not_decided, extra_assumptions=(), selftest=None,
             # of the obligation names that function
             about_it = any(q in (o.construct or '') or (o.construct or '').startswith(q[len('mitxgraders.'):] if q.startswith('mitxgraders.') else q)
                            for q in unreviewed_q)
+            # function-granular: a finding located in a function that calls none of the un-inlined helpers of its file does not
+            # depend on them (a finding at module level, or whose function cannot be determined, keeps the file-level caution)
+            independent = False
             if f in unreviewed_files and not about_it:
+                try:
+                    line = int((o.loc or '').split(':')[1])
+                    encl = None
+                    for fi2 in idx0.funcs.values():
+                        if fi2.module.relpath == f and fi2.node.lineno <= line <= (fi2.node.end_lineno or fi2.node.lineno):
+                            if encl is None or fi2.node.lineno >= encl.node.lineno:
+                                encl = fi2
+                    if encl is not None:
+                        import ast as _ast
+                        called = set()
+                        for n in _ast.walk(encl.node):
+                            if isinstance(n, _ast.Call):
+                                fn = n.func
+                                called.add(fn.id if isinstance(fn, _ast.Name) else fn.attr if isinstance(fn, _ast.Attribute) else '')
+                            elif isinstance(n, _ast.Attribute):
+                                called.add(n.attr)       # bound-method values, properties
+                            elif isinstance(n, _ast.Name):
+                                called.add(n.id)
+                        independent = not (called & set(unreviewed_files[f]))
+                except (ValueError, IndexError):
+                    independent = False
+            if f in unreviewed_files and not about_it and not independent:
                 o.status = UNDECIDED
                 o.detail = 'not definite because unreviewed helper(s) %s in %s could not be inlined: %s' % (
                     ', '.join(sorted(set(unreviewed_files[f]))[:4]), f, o.detail)
